@@ -10,12 +10,27 @@ Proof. right. intros e n. apply le_n. Qed.
 
 Theorem cpp_des_in_bounds b capB t prior buf : wf_ty t = true -> length buf = 8 * capB ->
   forallb (acc_ok capB) (snd (walk_des_safe (cpp_cfg b) t prior buf)) = true.
-Proof. apply (des_in_bounds (cpp_cfg b) (cpp_cfg_sound b)). Qed.
+Proof. apply (des_in_bounds (cpp_cfg b) eq_refl (cpp_cfg_sound b)). Qed.
+
+(* ---- the C++ serializer: every store inside the caller's buffer, for every type, object content and buffer size; whatever does not
+   fit is refused by the member BEFORE it stores (w_checked / w_nest fail without a log entry) ---- *)
+Theorem cpp_ser_in_bounds upf pl t o capB : pl = all_first ->
+  forallb (acc_ok capB) (snd (walk_ser_safe (cpp_ser_cfg upf pl) t o capB)) = true.
+Proof. intros ->. exact (ser_in_bounds_guarded (cpp_ser_cfg upf all_first) t o capB eq_refl eq_refl eq_refl). Qed.
+
+(* with the up-front test compiled in, too small a buffer is refused before ANY store *)
+Theorem cpp_ser_too_small_no_write pl t o capB : pl = all_first -> 8 * capB < bmax t ->
+  walk_ser_safe (cpp_ser_cfg true pl) t o capB = (Err ETooSmall, []).
+Proof. intros -> H. exact (too_small_no_write (cpp_ser_cfg true all_first) t o capB eq_refl eq_refl H). Qed.
+
+(* a refused store leaves no log entry: the checked members test first (model side of the scanned event lists of the set members) *)
+Theorem checked_refusal_touches_nothing lim off w : lim < off + w -> w_checked lim off w = (Err ETooSmall, []).
+Proof. intros H. unfold w_checked. replace (lim <? off + w) with true by (symmetry; apply Nat.ltb_lt; exact H). reflexivity. Qed.
 
 (* with a clamped subspan() every pointer stays inside [data, data + size] *)
 Theorem cpp_des_ptr_in_bounds capB t prior buf : wf_ty t = true -> length buf = 8 * capB ->
   forallb (ptr_ok capB) (snd (walk_des_safe (cpp_cfg true) t prior buf)) = true.
-Proof. apply (des_ptr_in_bounds (cpp_cfg true) (cpp_cfg_sound true)). reflexivity. Qed.
+Proof. apply (des_ptr_in_bounds (cpp_cfg true) eq_refl (cpp_cfg_sound true)). reflexivity. Qed.
 
 (* =====================================================  variable-length array  ===================================================== *)
 Section VlaSound.
